@@ -13,7 +13,8 @@
 (***************************************************************************)
 EXTENDS Naturals, FiniteSets, Sequences, TLC, Json, Randomization
 
-CONSTANTS NNodes, Emit, RandomGraphs, EdgeCounts, SliceK, SliceM      \* only edge sets whose index mod SliceM = SliceK are emitted (SliceM = 1: all)
+CONSTANTS NNodes, Emit, RandomGraphs, EdgeCounts, Shapes,      \* Shapes # {}: the named deep / wide families below instead of all edge sets
+          SliceK, SliceM      \* only edge sets whose index mod SliceM = SliceK are emitted (SliceM = 1: all)
 
 VARIABLES E
 vars == <<E>>
@@ -26,7 +27,9 @@ RECURSIVE Closure(_, _)
 Closure(R, n) == IF n = 0 THEN R
                  \* TLCEval: TLC passes operator arguments unevaluated; without it the set would be recomputed at every use
                  ELSE Closure(TLCEval(R \cup {<<a, c>> \in Pairs : \E b \in Node : <<a, b>> \in R /\ <<b, c>> \in R}), n - 1)
-TC(R) == Closure(R, NNodes)
+\* one squaring doubles the length of the paths covered: ceil(log2(NNodes)) squarings suffice
+Squarings == CHOOSE k \in 0..NNodes : 2^k >= NNodes /\ \A j \in 0..(k - 1) : 2^j < NNodes
+TC(R) == Closure(R, Squarings)
 Cyclic(R) == \E a \in Node : <<a, a>> \in TC(R)
 
 \* order-theoretic definition: acyclic iff the nodes can be numbered so that every edge goes to a smaller number
@@ -41,14 +44,33 @@ RECURSIVE SetSum(_)
 SetSum(S) == IF S = {} THEN 0 ELSE LET x == CHOOSE y \in S : TRUE IN EdgeIndex(x) * EdgeIndex(x) + SetSum(S \ {x})
 InSlice == SliceM = 1 \/ (SetSum(E) + Cardinality(E)) % SliceM = SliceK
 
+\* Deep and wide families ("however deep or wide the graph is"): the number of PATHS of a ladder is 2^(NNodes / 2), so an
+\* algorithm that walks paths instead of nodes does not finish on it, and a cycle that closes only after NNodes steps is
+\* invisible to a bounded search.
+Chain  == {<<i, i + 1>> : i \in 1..(NNodes - 1)}
+\* levels of two nodes (2k-1, 2k); every node of a level refers to both nodes of the next level
+Ladder == {p \in Pairs : (p[2] + 1) \div 2 = (p[1] + 1) \div 2 + 1}
+Fan    == {<<1, i>> : i \in 2..(NNodes - 1)} \cup {<<i, NNodes>> : i \in 2..(NNodes - 1)}
+\* every node refers to every later node: the densest acyclic graph
+Dense  == {p \in Pairs : p[1] < p[2]}
+Shape(s) == CASE s = "chain" -> Chain [] s = "ladder" -> Ladder [] s = "fan" -> Fan [] s = "dense" -> Dense
+              [] s = "chain+back" -> Chain \cup {<<NNodes, 1>>}
+              [] s = "ladder+back" -> Ladder \cup {<<NNodes, 1>>}
+              [] s = "fan+back" -> Fan \cup {<<NNodes, 1>>}
+              [] s = "dense+back" -> Dense \cup {<<NNodes, NNodes - 1>>}
+              [] s = "chain+selfloop-at-end" -> Chain \cup {<<NNodes, NNodes>>}
+
 \* RandomGraphs > 0: that many random edge sets per edge count instead of all edge sets (large NNodes)
-Init == IF RandomGraphs = 0 THEN E \in SUBSET Pairs
+Init == IF Shapes # {} THEN E \in {Shape(s) : s \in Shapes}
+        ELSE IF RandomGraphs = 0 THEN E \in SUBSET Pairs
         ELSE E \in {RandomSubset(k, Pairs) : k \in EdgeCounts, i \in 1..RandomGraphs}
 Next == UNCHANGED E
 Spec == Init /\ [][Next]_vars
 
-Replay == [R |-> "graph", n |-> NNodes, edges |-> E, cyclic |-> Cyclic(E),
-           on_cycle |-> {a \in Node : <<a, a>> \in TC(E)}]
+ShapeName == IF Shapes = {} THEN "-" ELSE CHOOSE s \in Shapes : Shape(s) = E
+ReplayOf(tc) == [R |-> "graph", n |-> NNodes, edges |-> E, cyclic |-> (\E a \in Node : <<a, a>> \in tc), shape |-> ShapeName,
+                 on_cycle |-> {a \in Node : <<a, a>> \in tc}]
+Replay == ReplayOf(TC(E))
 \* every acyclic graph is emitted (they are a small minority), cyclic ones by slice
-EmitReplay == (Emit /\ (InSlice \/ ~Cyclic(E))) => PrintT(ToJson(Replay))
+EmitReplay == Emit => LET tc == TC(E) IN (InSlice \/ ~(\E a \in Node : <<a, a>> \in tc)) => PrintT(ToJson(ReplayOf(tc)))
 =============================================================================
